@@ -21,6 +21,9 @@ DELTAS = [None, -2.0, -1.001, -1.0, -0.5, -0.001, 0.0, 0.001, 1.0]
 DELTA_W = [2, 3, 2, 2, 1.5, 1.5, 1, 1.5, 1.5]
 EPS = 1e-6
 
+CLOSE_FACTS = ("wasClean", "wasNotCleanReason", "droppedByMe", "closedByMe", "remoteCloseCode", "remoteCloseReason",
+               "localCloseCode", "localCloseReason", "wasMaxFramePayloadSizeExceeded", "wasMaxMessagePayloadSizeExceeded")
+
 CAUSE = {
     "open": "WebSocket opening handshake timeout",
     "close": "peer did not finish the closing handshake in time",
@@ -429,6 +432,9 @@ class World(WsWorld):
         if e.closed_cb is not None and not self.after_close_checked:
             self.after_close_checked = True
             self.check_close_cause()
+            # what the endpoint reports about this close, as of the close notification: no timer may change it later
+            self.close_facts0 = [repr(getattr(e.p, k, None)) for k in CLOSE_FACTS]
+            self.close_calls0 = len(getattr(e.t, "calls_after_gone", []))
         for ep in self.eps:
             if ep.closed_cb is not None:
                 if ep.after_close_events:
@@ -531,10 +537,11 @@ class World(WsWorld):
             st0 = len(e.states)
             w0 = e.t.written_total
             lg = run.nevents
-            facts = ("wasClean", "wasNotCleanReason", "droppedByMe", "closedByMe", "remoteCloseCode", "remoteCloseReason",
-                     "localCloseCode", "localCloseReason", "wasMaxFramePayloadSizeExceeded", "wasMaxMessagePayloadSizeExceeded")
-            facts0 = [repr(getattr(e.p, k, None)) for k in facts]
-            calls0 = len(getattr(e.t, "calls_after_gone", []))
+            facts = CLOSE_FACTS
+            facts0 = getattr(self, "close_facts0", None) or [repr(getattr(e.p, k, None)) for k in facts]
+            calls0 = getattr(self, "close_calls0", None)
+            if calls0 is None:
+                calls0 = len(getattr(e.t, "calls_after_gone", []))
             t_end = self.now() + 1000.0
             n = 0
             while n < 200:
